@@ -116,10 +116,30 @@ func lessAny(a, b reflect.Value) bool {
 				}
 			}
 		}
+		// ... or by the strings they hold (two kv families of different stores may both be called "1", their paths differ)
+		if a.Kind() == reflect.Pointer && !a.IsNil() && !b.IsNil() {
+			if as, bs := structStrings(a.Elem()), structStrings(b.Elem()); as != bs {
+				return as < bs
+			}
+		}
 		// no canonical order exists for addresses; order of first registration
 		return ptrSeq(a) < ptrSeq(b)
 	}
 	return fmt.Sprint(a.Interface()) < fmt.Sprint(b.Interface())
+}
+
+// structStrings concatenates the string fields of a struct (exported or not).
+func structStrings(e reflect.Value) string {
+	if e.Kind() != reflect.Struct {
+		return ""
+	}
+	out := ""
+	for i := 0; i < e.NumField(); i++ {
+		if f := e.Field(i); f.Kind() == reflect.String {
+			out += f.String() + "\x00"
+		}
+	}
+	return out
 }
 
 var (
